@@ -102,6 +102,13 @@ def datasets(seed):
         X[t:] += g.choice([3.0, -4.0, 5.0])
         X[int(g.integers(n))] += 7.0
         out.append(pd.DataFrame(X))
+    # 6: quiet series whose only anomaly is at the very end; 7: a collective anomaly in the first rows (what one run leaves
+    # behind in a process-wide structure would be applied at the start of the next)
+    A = g.normal(size=(24, 1)) * 0.1
+    A[21:] += 9.0
+    B = g.normal(size=(24, 1)) * 0.1
+    B[0:6] += 7.0
+    out += [pd.DataFrame(A), pd.DataFrame(B)]
     return out
 
 
@@ -146,12 +153,22 @@ def gen_history(rng, length):
     # pairs of objects that interact only through something they share: one change detector object handed to two
     # anomalisers; two MVCAPA detectors that differ in the saving's parameter count but agree in (n, p, scale), so that
     # anything memoised per (n, p, scale) at module level would be handed from one to the other
-    scen = rng.choice([None, None, "stat-pair", "mvcapa-pair"])
+    scen = rng.choice([None, None, "stat-pair", "mvcapa-pair", "capa-leak", "shared-pair"])
     if scen:
         a, b = len(objs), len(objs) + 1
         if scen == "stat-pair":
             for _ in range(2):
                 objs.append({"type": "det", "kind": "stat", "prm": {"scale": 1.0, "m": 2, "inner": "shared"}, "share": False})
+            xa, xb = rng.sample([0, 2, 5], 2)
+        elif scen == "capa-leak":
+            kind = rng.choice(["capa", "mvcapa"])
+            for m in (3, 2):
+                objs.append({"type": "det", "kind": kind, "prm": {"scale": rng.choice([0.5, 1.0]), "m": m}, "share": False})
+            xa, xb = 6, 7
+        elif scen == "shared-pair":  # two detectors of one kind holding the SAME cost object, used alternately
+            kind = rng.choice(["cbs", "sbs", "mw", "pelt"])
+            for _ in range(2):
+                objs.append({"type": "det", "kind": kind, "prm": {"scale": rng.choice([0.5, 1.0]), "m": 2}, "share": True})
             xa, xb = rng.sample([0, 2, 5], 2)
         else:
             sc = rng.choice([0.5, 1.0])
@@ -167,8 +184,14 @@ def gen_history(rng, length):
             for sv, fam in pairs:
                 objs.append({"type": "det", "kind": "mvcapa", "prm": {"scale": sc, "m": 2, "saving": sv, "cfam": fam, "pfam": fam}, "share": False})
             xa = xb = rng.choice([3, 4, 4])
-        for o, op, xi in [(a, "fit", xa), (b, "fit", xb), (a, "predict", xa), (b, "predict", xb), (b, "transform_scores", xb),
-                          (a, "transform", xb), (a, "transform_scores", xa)]:
+        tail = [(a, "fit", xa), (b, "fit", xb), (a, "predict", xa), (b, "predict", xb), (b, "transform_scores", xb),
+                (a, "transform", xb), (a, "transform_scores", xa)]
+        if scen == "shared-pair":  # alternate between the two holders on the data each was fitted to
+            tail = [(a, "fit", xa), (b, "fit", xb), (a, "predict", xa), (b, "predict", xb), (a, "predict", xa), (b, "predict", xb),
+                    (a, "transform", xa)]
+        if scen == "stat-pair" and rng.random() < 0.5:  # the user fits the detector object they handed over, on other data
+            tail = [(a, "fit", xa), (a, "fit_inner", xb), (a, "predict", xa), (b, "fit", xb), (b, "predict", xa)]
+        for o, op, xi in tail:
             ops.append({"o": o, "op": op, "X": xi, "arg": 1.0, "cut": 10, "ov": 0})
     return {"objs": objs, "ops": ops, "seed": rng.randint(0, 10**6)}
 
@@ -383,7 +406,9 @@ def _run_history(hist, pristine):
                 real_writes = list(WRITES)
 
         try:
-            if kind in ("fit", "refit-same"):
+            if kind == "fit_inner":
+                shared_inner.fit(X)
+            elif kind in ("fit", "refit-same"):
                 obj.fit(X)
                 state[i]["train"] = X.copy()
             elif kind == "update":
@@ -479,8 +504,8 @@ def _run_history(hist, pristine):
         trace.append(f"{meta['kind']}#{i}.{kind}(D{op['X']})")
         after = [h(x) for x in D]
         if after != before:
-            viol.append(f"step {step}: {meta['kind']}.{kind} modified the caller's data (dataset {[j for j in range(6) if after[j] != before[j]]})")
-            for j in range(6):
+            viol.append(f"step {step}: {meta['kind']}.{kind} modified the caller's data (dataset {[j for j in range(len(D)) if after[j] != before[j]]})")
+            for j in range(len(D)):
                 D[j] = D0[j].copy()
         if kind not in ("set_params", "clone", "sclone") and params_sig(live[i]) != psig:
             viol.append(f"step {step}: {meta['kind']}.{kind} changed get_params()")
